@@ -588,6 +588,100 @@ def return_kind_stream():
     return bad, stats
 
 
+# ---------------------------------------------------------------------------
+# round 4: the accepted side (and the expected side) as a UNION
+
+
+def gen_union_groups(rng, n):
+    """(e, members, with_none): members = 2..3 signatures (edits of e / random)"""
+    # fixed shapes first (round-4 seed: `use(good if flag else bad)`; Optional[Callable] must be rejected)
+    out = [
+        ([["a", POK, 0], ["b", POK, 0]], [[["a", POK, 0], ["b", POK, 0]], [["a", POK, 0]]], False),
+        ([["a", POK, 0]], [[["a", POK, 0]], [["a", POK, 0], ["b", POK, 0]]], False),
+        ([["a", POK, 0]], [[["a", POK, 0]], [["a", POK, 0], ["b", POK, 1]]], False),
+        ([["a", POK, 0]], [[["a", POK, 0]]], True),
+    ]
+    for j in range(n):
+        e = B.random_sig(rng, 4)
+        members = []
+        for _ in range(rng.choice([2, 2, 3])):
+            members.append((mutate_sig(rng, e) if rng.random() < 0.8 else None) or B.random_sig(rng, 4))
+        if rng.random() < 0.45:
+            members[rng.randrange(len(members))] = e  # at least one compatible member, often
+        out.append((e, members, rng.random() < 0.12))
+    return out
+
+
+def impl_union_accepts(e, members, with_none):
+    """accepted side = MultiValuedValue of the member functions (plus None when with_none), through
+    CallableValue(sig).can_assign and KnownValue(f).can_assign"""
+    I = B._impl()
+    V = I["V"]
+    from pyanalyze.value import CanAssignError
+
+    vals = [V.KnownValue(B.real_function(a)) for a in members] + ([V.KnownValue(None)] if with_none else [])
+    other = V.MultiValuedValue(vals)
+    ck = I["ck"]
+    r1 = not isinstance(V.CallableValue(B.impl_signature(e)).can_assign(other, ck), CanAssignError)
+    r2 = not isinstance(V.KnownValue(B.real_function(e)).can_assign(other, ck), CanAssignError)
+    return r1, r2
+
+
+def impl_expected_union_accepts(es, a):
+    """expected side = MultiValuedValue of CallableValues"""
+    I = B._impl()
+    V = I["V"]
+    from pyanalyze.value import CanAssignError
+
+    exp = V.MultiValuedValue([V.CallableValue(B.impl_signature(e)) for e in es])
+    return not isinstance(exp.can_assign(V.KnownValue(B.real_function(a)), I["ck"]), CanAssignError)
+
+
+def run_union_argument_modules(items):
+    """items: (n, members, with_none, form).  `def use(cb: Callable[[int]*n, object])`; the argument is
+    a conditional expression over the member functions (form 0) or a variable assigned a different
+    function in each branch (form 1).  True = no incompatible_argument."""
+    import contextlib
+    import io
+
+    from pyanalyze.error_code import ErrorCode
+    from pyanalyze.test_name_check_visitor import TestNameCheckVisitorBase
+
+    lines = ["from typing import Callable"]
+    for i, (n, members, with_none, form) in enumerate(items):
+        for j, a in enumerate(members):
+            lines.append(f"def g{i}_{j}({B.header(a).replace(chr(39) + 'd' + chr(39) + ', ', chr(39) + 'd_' + chr(39) + ', ')}): pass")
+        lines.append(f"def use{i}(cb: Callable[[{', '.join(['int'] * n)}], object]): pass")
+    call_line = {}
+    for i, (n, members, with_none, form) in enumerate(items):
+        names = [f"g{i}_{j}" for j in range(len(members))] + (["None"] if with_none else [])
+        lines.append(f"def run{i}(c0: bool, c1: bool, c2: bool):")
+        if form == 0:
+            expr = names[-1]
+            for k, nm in reversed(list(enumerate(names[:-1]))):
+                expr = f"{nm} if c{k} else ({expr})"
+            lines.append(f"    use{i}({expr})")
+        else:
+            for k, nm in enumerate(names):
+                kw = "if" if k == 0 else "elif" if k < len(names) - 1 else "else"
+                lines.append(f"    {kw} c{k}:" if kw != "else" else "    else:")
+                lines.append(f"        v = {nm}")
+            lines.append(f"    use{i}(v)")
+        call_line[len(lines)] = i
+    buf = io.StringIO()
+    with contextlib.redirect_stderr(buf), contextlib.redirect_stdout(buf):
+        errs = TestNameCheckVisitorBase()._run_str("\n".join(lines) + "\n", fail_after_first=False)
+    verdict = [True] * len(items)
+    other = {}
+    for er in errs:
+        i = call_line.get(er["lineno"])
+        if i is not None and er["code"] is ErrorCode.incompatible_argument:
+            verdict[i] = False
+        else:
+            other[er["code"].name] = other.get(er["code"].name, 0) + 1
+    return verdict, other
+
+
 def enc_pair(e, a):
     return "C" + B.enc_sig(e) + "|" + B.enc_sig(a)
 
@@ -658,11 +752,14 @@ def run(tier: str, replay: str | None = None):
     # ---- cases
     pairs = []
     replay_hier = None
+    replay_union = None
     typed = []  # (e, te, re, a, ta, ra)
     if replay:
         r = json.loads(Path(replay).read_text())
         c = r["input"]
-        if "callable" in c:
+        if "union_members" in c:
+            replay_union = [(c["e"], c["union_members"], c.get("with_none", False))]
+        elif "callable" in c:
             pass  # the return-kind stream is fixed and runs on every invocation
         elif "hierarchy" in c:
             replay_hier = [(c["hierarchy"], c["bases"], c["a"])]
@@ -930,6 +1027,78 @@ def run(tier: str, replay: str | None = None):
                             failing.append((payload, f"override accepted (no incompatible_override); call with {bad[0]} positionals and keywords {bad[1]}", f"the base definition def m({B.header(e)}) binds the call, the override raises TypeError"))
                         break
 
+    # ---- round 4: unions on the accepted side (every member must be acceptable) and on the expected side
+    un_corr = []
+    n_un = n_un_acc = n_un_mod = n_eun = 0
+    un_other = {}
+    if exe is not None and not replay or replay_union:
+        groups = replay_union or gen_union_groups(rng, 1200 if not thorough else 8000)
+        outs = iter(lib.ocaml_run(exe, [enc_pair(e, a) for e, members, _ in groups for a in members]))
+        for e, members, with_none in groups:
+            ms = [parse_model(next(outs)) for _ in members]
+            model_acc = all(m[0] for m in ms) and not with_none
+            r1, r2 = impl_union_accepts(e, members, with_none)
+            n_un += 1
+            n_un_acc += int(r1)
+            payload = {"e": e, "union_members": members, "with_none": with_none,
+                       "text": f"expected def f({B.header(e)})  <-  union of " + " | ".join(f"def g({B.header(a)})" for a in members) + (" | None" if with_none else "")}
+            if r1 != model_acc or r2 != model_acc:
+                un_corr.append({"input": payload, "model (every member accepted)": model_acc, "CallableValue.can_assign": r1, "KnownValue.can_assign": r2})
+            if r1 or r2:
+                fe = B.real_function(e)
+                if with_none:
+                    failing.append((payload, "accepted", "a member of the union is None, which is not callable"))
+                for a, m in zip(members, ms):
+                    bad = find_unsound_call(fe, B.real_function(a), e, a)
+                    if bad is not None:
+                        if m[0] and m[2]:
+                            hist["known"]["C07-double-fill"] = hist["known"].get("C07-double-fill", 0) + 1
+                            rep.known("C07-double-fill", KNOWN_TEXT["C07-double-fill"])
+                        else:
+                            failing.append((payload, f"union accepted; call with {bad[0]} positionals and keywords {bad[1]}", f"the expected signature binds the call, the member def g({B.header(a)}) raises TypeError"))
+                        break
+        if not replay:
+            # expected side as a union: accepted iff some member accepts
+            egroups = [(B.random_sig(rng, 3), None) for _ in range(400 if not thorough else 3000)]
+            egroups = [([e0, mutate_sig(rng, e0) or B.random_sig(rng, 3)], (mutate_sig(rng, e0) if rng.random() < 0.7 else None) or B.random_sig(rng, 3)) for e0, _ in egroups]
+            outs = iter(lib.ocaml_run(exe, [enc_pair(e, a) for es, a in egroups for e in es]))
+            for es, a in egroups:
+                ms = [parse_model(next(outs)) for _ in es]
+                acc = impl_expected_union_accepts(es, a)
+                n_eun += 1
+                payload = {"expected_union": es, "a": a, "text": " | ".join(f"def f({B.header(e)})" for e in es) + f"  <-  def g({B.header(a)})"}
+                if acc != any(m[0] for m in ms):
+                    un_corr.append({"input": payload, "model (some member accepts)": any(m[0] for m in ms), "impl": acc})
+                if acc:
+                    fa = B.real_function(a)
+                    if all(find_unsound_call(B.real_function(e), fa, e, a) is not None and not (m[0] and m[2]) for e, m in zip(es, ms)):
+                        failing.append((payload, "accepted", "no member of the expected union is behaviourally satisfied by g"))
+            # module route: Callable[[int]*n, object] with a conditional expression / branch-assigned variable
+            items = []
+            for e, members, with_none in groups[: 200 if not thorough else 1000]:
+                n = rng.choice([0, 1, 2, 2, 3])
+                items.append((n, members, with_none, len(items) % 2))
+            for k in range(0, len(items), 100):
+                chunk = items[k : k + 100]
+                vs, other = run_union_argument_modules(chunk)
+                for key, val in other.items():
+                    un_other[key] = un_other.get(key, 0) + val
+                for (n, members, with_none, form), ok in zip(chunk, vs):
+                    n_un_mod += 1
+                    each = [impl_callable_annotation(n, B.real_function(a)) for a in members]
+                    want = all(each) and not with_none
+                    payload = {"e": callable_expected_sig(n), "union_members": members, "with_none": with_none,
+                               "text": f"use(<{'conditional expression' if form == 0 else 'variable assigned in branches'}>) for Callable[[{n} ints], object] over " + " | ".join(f"def g({B.header(a)})" for a in members) + (" | None" if with_none else "")}
+                    if ok and not want:
+                        bad_members = [a for a, okm in zip(members, each) if not okm]
+                        culprit = next((a for a in bad_members if not B.cpython_binds(B.real_function(a), n, [])), None)
+                        if with_none or culprit is not None:
+                            failing.append((payload, "accepted (no incompatible_argument)", "a member of the union is None" if culprit is None else f"the member def g({B.header(culprit)}) raises TypeError when called with {n} positional arguments"))
+                        else:
+                            un_corr.append({"input": payload, "module accepts": ok, "every member accepted individually": want})
+                    elif ok != want:
+                        un_corr.append({"input": payload, "module accepts": ok, "every member accepted individually": want})
+
     # ---- return covariance through every kind of callable (the oracle calls the accepted object)
     rk_bad, rk_stats = return_kind_stream()
     for b in rk_bad:
@@ -953,6 +1122,8 @@ def run(tier: str, replay: str | None = None):
         rep.violation({"kind": "broken-correspondence", "correspondence": "SigAssign.sca with n unnamed positional-only parameters vs CallableValue from Callable[[...], R]", **ca_corr[0]}, no_failing_input=True)
     if ca_e2e_bad and not found:
         rep.violation({"kind": "broken-correspondence", "correspondence": "Callable[...] annotation: type_from_runtime route vs module diagnostics", **ca_e2e_bad[0]}, no_failing_input=True)
+    if un_corr and not found:
+        rep.violation({"kind": "broken-correspondence", "correspondence": "union on the accepted / expected side: model (all / some members) vs CallableValue / KnownValue / MultiValuedValue.can_assign and module diagnostics", **un_corr[0]}, no_failing_input=True)
     if hier_corr and not found:
         rep.violation({"kind": "broken-correspondence", "correspondence": "override check on class hierarchies (incompatible_override) vs Signature.can_assign against every definition in the MRO", **hier_corr[0]}, no_failing_input=True)
     if ov2_corr and not found:
@@ -965,7 +1136,7 @@ def run(tier: str, replay: str | None = None):
         rep.harness_error("specification PyBind.py_bind disagrees with CPython on " + json.dumps(sb))
 
     rep.coverage.update(
-        evaluations=len(pairs) + len(typed) + n_spec + n_ep + n_ov + n_pr + n_ca + n_ca_e2e + n_ov2 + n_hier,
+        evaluations=len(pairs) + len(typed) + n_spec + n_ep + n_ov + n_pr + n_ca + n_ca_e2e + n_ov2 + n_hier + n_un + n_eun + n_un_mod,
         distinct_nontrivial=len(distinct),
         rule="a case = (expected signature e, actual signature a): every def-expressible e with <=2 parameters x a sample (thorough: all) of the <=2-parameter signatures over names {a,b,c}; "
         "random e with <=5 parameters paired with an independent random a (1/4) or an edit of e (kind change, default flip, added optional/*args/**kwargs, dropped, renamed or swapped parameter); "
@@ -994,6 +1165,12 @@ def run(tier: str, replay: str | None = None):
         callable_annotation_modules=n_ca_e2e,
         callable_annotation_module_mismatches=len(ca_e2e_bad),
         callable_annotation_other_codes=ca_other,
+        union_accepted_side_groups=n_un,
+        union_accepted_side_accepted=n_un_acc,
+        union_expected_side_groups=n_eun,
+        union_argument_modules=n_un_mod,
+        union_mismatches=len(un_corr),
+        union_other_codes=un_other,
         return_kind_checks=rk_stats["checked"],
         return_kind_accepted=rk_stats["per_kind_accepted"],
         hierarchies_checked=n_hier,
